@@ -17,7 +17,8 @@ at the end of every stall must stay below 2*SNDBUF + 2*RCVBUF + largest message 
 (the payload of stall sessions is >= 1 MiB, so unbounded user-space buffering is
 unmistakable); after EOF the reader gets every remaining byte and then EndOfStream; closed
 stream: send -> ClosedResourceError, receive -> data already received, then
-ClosedResourceError, never blocking; concurrent use of one direction -> BusyResourceError.
+ClosedResourceError, never blocking - also for a receive() and/or a back-pressured send() that
+were already blocked when a third task closed the stream; concurrent use of one direction -> BusyResourceError.
 """
 
 from __future__ import annotations
@@ -37,7 +38,7 @@ RULE = (
     "case = (loop asyncio|uvloop, tcp|unix, which side reads (accepted|connecting), "
     "message sizes 1 B..256 KiB (stall sessions: 1-2 MiB in 8-32 KiB messages), reader "
     "max_bytes list from {1, 7, 100, 4096, 65536, 1<<20}, stall before first receive / "
-    "mid-stream / none, reverse flow on/off, EOF by send_eof|aclose, closed-stream and "
+    "mid-stream / none, reverse flow on/off, EOF by send_eof|aclose, closed-stream, close-under-pending-operations and "
     "busy-direction probes). Non-trivial = the reader stalled long enough for the writer "
     "to block (back-pressure exercised), or both directions were busy; distinct = distinct "
     "(config, kind, roles, sizes, max_bytes, stall, eof mode)."
@@ -94,6 +95,7 @@ def gen_case(rng: random.Random, cfg: str, kind: str) -> dict:
         # the writer has not sent yet; everything afterwards must be as if it never happened
         "cancelled_receive": rng.random() < 0.35,
         "reverse_late": rng.random() < 0.5,
+        "close_pending": rng.choice([None, None, None, "r", "s", "rs"]),
     }  # fmt: skip
 
 
@@ -332,6 +334,9 @@ def execute(case: dict) -> dict:
         if case["probe_closed"]:
             await probe_closed(conn, listener)
 
+        if case.get("close_pending"):
+            await probe_close_pending(conn, listener, case["close_pending"])
+
         for x in (c, s):
             try:
                 await x.aclose()
@@ -422,6 +427,68 @@ def execute(case: dict) -> dict:
 
         await b.aclose()
 
+    async def probe_close_pending(conn, listener, pend: str) -> None:  # noqa: ANN001
+        """a third task closes the stream while a receive() ("r"), a back-pressured send()
+        ("s") or both ("rs") are blocked on it: the stream is locally closed from then on,
+        so each of them has to end with ClosedResourceError instead of staying blocked"""
+        a, b = await pair(conn, listener)
+        res: dict = {}
+        blocked = {"send": 0}
+
+        async def tx() -> None:
+            try:
+                while True:
+                    await a.send(b"x" * 65536)  # b never reads: blocks after a few rounds
+                    blocked["send"] += 1
+            except BaseException as e:  # noqa: BLE001
+                res["send"] = type(e).__name__
+                if isinstance(e, anyio.get_cancelled_exc_class()):
+                    raise
+
+        async def rx() -> None:
+            try:
+                res["receive"] = repr(await a.receive())  # b never writes: blocks
+            except BaseException as e:  # noqa: BLE001
+                res["receive"] = type(e).__name__
+                if isinstance(e, anyio.get_cancelled_exc_class()):
+                    raise
+
+        with anyio.move_on_after(15) as scope:
+            async with create_task_group() as tg:
+                if "s" in pend:
+                    tg.start_soon(tx)
+
+                if "r" in pend:
+                    tg.start_soon(rx)
+
+                # the writer is blocked once its count of completed sends stops moving
+                last = -1
+                for _ in range(200):
+                    await anyio.sleep(0.02)
+                    if "s" not in pend or blocked["send"] == last:
+                        break
+
+                    last = blocked["send"]
+
+                await a.aclose()
+
+        window("close_with_pending_" + pend)
+        want = {"send": "ClosedResourceError"} if "s" in pend else {}
+        if "r" in pend:
+            want["receive"] = "ClosedResourceError"
+
+        if scope.cancelled_caught:
+            viol.append(("pending-operation-still-blocked-15s-after-local-close",
+                         {"pending": pend, "results": res, "sends_completed": blocked["send"]}))  # fmt: skip
+        elif res != want:
+            viol.append(("pending-operation-wrong-outcome-after-local-close",
+                         {"pending": pend, "results": res}))  # fmt: skip
+
+        try:
+            await b.aclose()
+        except BaseException:  # noqa: BLE001
+            pass
+
     try:
         if case["cfg"] == "uvloop":
             anyio.run(main, backend_options={"use_uvloop": True})
@@ -469,6 +536,14 @@ def all_cases(tier: str, seed: int):  # noqa: ANN201
                 yield {"cfg": cfg, "kind": kind, "reader": reader, "sizes": [100, 70000],
                        "max_bytes": [65536], "stall": "none", "reverse": [500, 1], "eof": "send_eof",
                        "probe_closed": False, "probe_busy": False, "reverse_late": True}  # fmt: skip
+
+    # a third task closes the stream under a blocked receive(), a blocked send(), or both
+    for cfg in ("asyncio", "uvloop"):
+        for kind in ("tcp", "unix"):
+            for pend in ("r", "s", "rs"):
+                yield {"cfg": cfg, "kind": kind, "reader": "connected", "sizes": [100],
+                       "max_bytes": [65536], "stall": "none", "reverse": [], "eof": "aclose",
+                       "probe_closed": False, "probe_busy": False, "close_pending": pend}  # fmt: skip
 
     # bulk transfers over un-shrunk kernel buffers to a late reader: the loop hands over
     # large chunks, on uvloop several per wake-up; integrity / order / chunk sizes only
@@ -531,7 +606,7 @@ def replay(case: dict, col) -> None:  # noqa: ANN001
 
 def finish(col, tier: str) -> None:  # noqa: ANN001
     for k in ("window:writer_blocked_by_back_pressure", "window:full_duplex", "window:busy_probe",
-              "window:closed_probe", "cfg:asyncio:tcp", "cfg:uvloop:tcp", "cfg:asyncio:unix",
+              "window:closed_probe", "window:close_with_pending_rs", "cfg:asyncio:tcp", "cfg:uvloop:tcp", "cfg:asyncio:unix",
               "cfg:uvloop:unix"):  # fmt: skip
         if not col.counters.get(k):
             col.inconclusive_because(f"deciding window never reached: {k}")
